@@ -1,11 +1,11 @@
 SPECIFICATION MCSpec
 CONSTANTS
-  Clients = {1, 2, 3, 4}
+  Clients = {1, 2, 3}
   Ids = {1, 2}
   MaxData = 1
-  MaxHist = 10
+  MaxHist = 8
   RegWhileClaimed = "refuse"
-  AltSpelling = "off"
+  AltSpelling = "refuse"
 INVARIANTS C25_OnlyPartner C25_NoRelayBeforeBridge C25_InOrderNoLoss C25_SingleClaim C25_Symmetric C25_PartnerDisconnected C26_Released C26_NeverHangs D_RegistryConsistent
 VIEW View
 CONSTRAINT Bound
